@@ -22,7 +22,7 @@ ALL = ops.BINARY + ops.UNARY + REG
 
 
 def floors(tier):
-    f = {'distinct_nontrivial': 700 if tier == 'quick' else 4000, 'first_calls_with_generation_seen': 300,
+    f = {'distinct_nontrivial': 700 if tier == 'quick' else 60000, 'first_calls_with_generation_seen': 300,
          'repeat_calls_checked': 2000, 'interleaved_other_calls': 300}
     for k in KINDS:
         f['repeat_kind_' + k] = 100
@@ -45,7 +45,7 @@ def plan(tier, seed):
         cfgs += [dict(c, opts={'cse': False}) for c in rng.sample(gen.sig_orderings(2, 3), 8)]
         cfgs += [dict(c, opts={'wrapper': w}) for c in rng.sample(gen.sig_orderings(2, 3), 8) for w in ('identity', 'wraps')]
         cfgs += [gen.random_custom_cfg(rng, 3) for _ in range(8)]
-        per, nshards = 4, 64
+        per, nshards = 30, 64
     U = [{'cfg': c, 'per_op': per} for c in cfgs]
     rng.shuffle(U)
     return [{'units': part} for part in gen.split(U, nshards)]
